@@ -86,20 +86,21 @@ func cmdLoops(args []string) int {
 // ---------------------------------------------------------------------
 
 type oblOut struct {
-	Function string  `json:"function"`
-	Name     string  `json:"name"`
-	Kind     string  `json:"kind"`
-	Status   string  `json:"status"`
-	Backend  string  `json:"backend"`
-	Seconds  float64 `json:"seconds"`
-	Bytes    int     `json:"smt_bytes"`
-	Text     string  `json:"text,omitempty"`
-	Pos      string  `json:"pos,omitempty"`
-	File     string  `json:"smt_file,omitempty"`
-	Soft     bool    `json:"soft,omitempty"`
-	output   string
-	res      *vc.FuncResult
-	obl      *vc.Obligation
+	Function  string  `json:"function"`
+	Name      string  `json:"name"`
+	Kind      string  `json:"kind"`
+	Status    string  `json:"status"`
+	Backend   string  `json:"backend"`
+	Seconds   float64 `json:"seconds"`
+	Bytes     int     `json:"smt_bytes"`
+	Text      string  `json:"text,omitempty"`
+	Pos       string  `json:"pos,omitempty"`
+	File      string  `json:"smt_file,omitempty"`
+	Soft      bool    `json:"soft,omitempty"`
+	output    string
+	caseFiles []string
+	res       *vc.FuncResult
+	obl       *vc.Obligation
 }
 
 type knownFinding struct {
@@ -228,7 +229,7 @@ func cmdCheck(args []string) int {
 		os.Exit(2)
 	})
 	seed, _ := strconv.Atoi(os.Getenv("VERIF_SEED"))
-	timeout := 20 * time.Second
+	timeout := 30 * time.Second
 	if *tier == "thorough" {
 		timeout = 90 * time.Second
 	}
@@ -275,6 +276,7 @@ func cmdCheck(args []string) int {
 	var mu sync.Mutex
 	var swg sync.WaitGroup
 	undecided := []string{}
+	retried := []string{}
 	trusted := []string{}
 	assumed := map[string]bool{}
 	funcs := []string{}
@@ -330,6 +332,7 @@ func cmdCheck(args []string) int {
 					}
 				}
 			}
+			oo.caseFiles = caseFiles
 			swg.Add(1)
 			go func(oo *oblOut, fname string, cover bool, caseFiles []string) {
 				defer swg.Done()
@@ -337,54 +340,7 @@ func cmdCheck(args []string) int {
 				if cover {
 					to = 10 * time.Second
 				}
-				var res solve.Result
-				if len(caseFiles) > 1 {
-					// race the plain query against a case analysis on the ite conditions
-					type cr struct {
-						idx int
-						r   solve.Result
-					}
-					ch := make(chan cr, len(caseFiles)+1)
-					go func() { ch <- cr{-1, solve.Run(fname, to, "")} }()
-					for ci, cname := range caseFiles {
-						go func(ci int, cname string) { ch <- cr{ci, solve.Run(cname, to, "")} }(ci, cname)
-					}
-					okCases := 0
-					var base *solve.Result
-					total := 0.0
-					done := false
-					for k := 0; k < len(caseFiles)+1 && !done; k++ {
-						c := <-ch
-						total += c.r.Seconds
-						if c.idx < 0 {
-							b := c.r
-							base = &b
-							if b.Status == "unsat" || b.Status == "sat" {
-								res = b
-								done = true
-							}
-							continue
-						}
-						if c.r.Status == "unsat" {
-							okCases++
-							if okCases == len(caseFiles) {
-								res = c.r
-								res.Solver = c.r.Solver + "+cases"
-								res.Seconds = total
-								done = true
-							}
-						}
-					}
-					if !done {
-						if base != nil {
-							res = *base
-						} else {
-							res = solve.Result{Status: "timeout"}
-						}
-					}
-				} else {
-					res = solve.Run(fname, to, "")
-				}
+				res := solveObl(fname, caseFiles, to)
 				mu.Lock()
 				oo.Status = res.Status
 				oo.Backend = res.Solver
@@ -393,6 +349,36 @@ func cmdCheck(args []string) int {
 				mu.Unlock()
 			}(oo, fname, o.Kind == "cover", caseFiles)
 		}
+	}
+	swg.Wait()
+	// second chance: an obligation that ran out of time (machine load, solver
+	// luck) is retried alone with a long limit before it is reported
+	retryTo := 150 * time.Second
+	if *tier == "thorough" {
+		retryTo = 300 * time.Second
+	}
+	rsem := make(chan struct{}, 4)
+	for _, oo := range outs {
+		if oo.Kind == "cover" || oo.File == "" || oo.Status == "unsat" || oo.Status == "sat" || oo.Status == "toolarge" || oo.Status == "" {
+			continue
+		}
+		swg.Add(1)
+		go func(oo *oblOut) {
+			defer swg.Done()
+			rsem <- struct{}{}
+			defer func() { <-rsem }()
+			first := oo.Status
+			res := solveObl(oo.File, oo.caseFiles, retryTo)
+			mu.Lock()
+			oo.Seconds += res.Seconds
+			if res.Status == "unsat" || res.Status == "sat" {
+				oo.Status = res.Status
+				oo.Backend = res.Solver + "+retry"
+				oo.output = res.Output
+				retried = append(retried, fmt.Sprintf("%s :: %s (%s after %s, %.1fs)", oo.Function, oo.Name, res.Status, first, res.Seconds))
+			}
+			mu.Unlock()
+		}(oo)
 	}
 	swg.Wait()
 
@@ -541,6 +527,57 @@ func cmdCheck(args []string) int {
 		return 1
 	}
 	return 0
+}
+
+// solveObl races the plain query against a case analysis on its ite conditions.
+func solveObl(fname string, caseFiles []string, to time.Duration) solve.Result {
+	if len(caseFiles) <= 1 {
+		return solve.Run(fname, to, "")
+	}
+	type cr struct {
+		idx int
+		r   solve.Result
+	}
+	var res solve.Result
+	ch := make(chan cr, len(caseFiles)+1)
+	go func() { ch <- cr{-1, solve.Run(fname, to, "")} }()
+	for ci, cname := range caseFiles {
+		go func(ci int, cname string) { ch <- cr{ci, solve.Run(cname, to, "")} }(ci, cname)
+	}
+	okCases := 0
+	var base *solve.Result
+	total := 0.0
+	done := false
+	for k := 0; k < len(caseFiles)+1 && !done; k++ {
+		c := <-ch
+		total += c.r.Seconds
+		if c.idx < 0 {
+			b := c.r
+			base = &b
+			if b.Status == "unsat" || b.Status == "sat" {
+				res = b
+				done = true
+			}
+			continue
+		}
+		if c.r.Status == "unsat" {
+			okCases++
+			if okCases == len(caseFiles) {
+				res = c.r
+				res.Solver = c.r.Solver + "+cases"
+				res.Seconds = total
+				done = true
+			}
+		}
+	}
+	if !done {
+		if base != nil {
+			res = *base
+		} else {
+			res = solve.Result{Status: "timeout"}
+		}
+	}
+	return res
 }
 
 func manifestLevel(prop string) string {
